@@ -38,7 +38,8 @@
  "object_bits": 8,
  "native_replay": true,
  "timeout": 600,
- "tier": "thorough"
+ "tier": "parked",
+ "parked_reason": "SAT solver out of memory (thorough-only unit)"
 }
 @*/
 /* C13.read_bin_exact  import: the value of a after pstm_read_unsigned_bin(a, buf, len) is the big-endian
